@@ -247,6 +247,7 @@ type exec struct {
 	t    *vkit.T
 	plan *TestPlan
 	next int
+	idx  int // 1-based execution number of this test in the process
 }
 
 // RunProcess executes every test of the history once per requested execution in
@@ -282,6 +283,9 @@ func (s *Sess) RunProcessN(r *rand.Rand, h *History, m vkit.Mode, noColor bool, 
 	}
 	stepOne := func(e *exec) bool {
 		op := e.plan.Ops[e.next]
+		if op.Fail == "matcher" && op.FailOnlyExec >= 1 && op.FailOnlyExec != e.idx {
+			op.Fail = ""
+		}
 		if mutate != nil {
 			mutate(e.plan, e.next, &op)
 		}
@@ -293,7 +297,7 @@ func (s *Sess) RunProcessN(r *rand.Rand, h *History, m vkit.Mode, noColor bool, 
 		for i := range h.Tests {
 			tp := &h.Tests[i]
 			for x := 0; x < execsOf(tp); x++ {
-				e := &exec{t: vkit.NewT(tp.Name), plan: tp}
+				e := &exec{t: vkit.NewT(tp.Name), plan: tp, idx: x + 1}
 				for e.next < len(tp.Ops) {
 					if !stepOne(e) {
 						return false
@@ -315,7 +319,7 @@ func (s *Sess) RunProcessN(r *rand.Rand, h *History, m vkit.Mode, noColor bool, 
 		var cand []int
 		for i := range h.Tests {
 			if live[i] == nil && remaining[i] > 0 {
-				live[i] = &exec{t: vkit.NewT(h.Tests[i].Name), plan: &h.Tests[i]}
+				live[i] = &exec{t: vkit.NewT(h.Tests[i].Name), plan: &h.Tests[i], idx: execsOf(&h.Tests[i]) - remaining[i] + 1}
 				remaining[i]--
 			}
 			if live[i] != nil {
